@@ -136,3 +136,17 @@ def framework_pattern_specs(n: int, star: bool, jt: str = "INNER") -> List[Dict[
                        "features": {"f1": {"inputs": [f"v{i}" for i in range(n)], "c0": 0, "coefs": [1] * n}}})
         out.append({"groups": groups, "request": ["f1"], "links": links})
     return out
+
+
+def gen_siblings(rng: random.Random, delay_ms: int = 25) -> Dict[str, Any]:
+    """One root and 2-3 sibling derived groups on the SAME framework, each depending only on root columns, all requested;
+    calculations take a few milliseconds (collection of one result overlaps the computation of the next)."""
+    cfw = rng.choice(CFWS[:2])
+    cols = {c: [rng.randrange(0, 20) for _ in range(3)] for c in ["a", "b"]}
+    groups: List[Dict[str, Any]] = [{"name": "R0", "kind": "root", "cfw": cfw, "cols": cols}]
+    req = []
+    for i in range(rng.randrange(2, 4)):
+        groups.append({"name": f"S{i}", "kind": "derived", "cfw": cfw,
+                       "features": {f"s{i}": {"inputs": [rng.choice(["a", "b"])], "c0": i, "coefs": [rng.choice([1, 2])]}}})
+        req.append(f"s{i}")
+    return {"groups": groups, "request": req, "delay_ms": delay_ms}
